@@ -341,6 +341,16 @@ class AtSet:
         new[self.idx] = val
         return new
 
+    def add(self, val):
+        """a.at[:, c].add(v): column c of a 2-d array shifted by a scalar"""
+        a, idx = self.arr, self.idx
+        full = lambda s: isinstance(s, slice) and s.start is None and s.stop is None and s.step is None
+        if a.ndim == 2 and isinstance(idx, tuple) and len(idx) == 2 and full(idx[0]) and isinstance(idx[1], (int, onp.integer)) and not isinstance(val, PArr):
+            c = int(idx[1])
+            v = I(val) if isinstance(val, (int, onp.integer)) else tm.lift(val)
+            return PArr(a.shape, lambda n, k: tm.ite(tm.eq(I(k), I(c)), a.el(n, k) + v, a.el(n, k)), a.sort, label=a.label + '.at[:,%d].add' % c)
+        raise P.Undecided('at[%r].add' % (idx,))
+
 
 PArr.at = property(lambda self: AtProxy(self))
 
@@ -383,6 +393,28 @@ class NpShim:
         if _concrete(n):
             return self._real.arange(_int(n))
         return PArr((n,), lambda k: k, INT, label='arange')
+
+    def concatenate(self, parts, axis=0):
+        parts = list(parts)
+        if not any(isinstance(p, PArr) for p in parts):
+            return self._real.concatenate(parts, axis=axis)
+        if axis != 0 or not all(isinstance(p, PArr) for p in parts) or len({p.ndim for p in parts}) != 1:
+            raise P.Undecided('concatenate of mixed / non-leading-axis symbolic arrays')
+        for p in parts[1:]:
+            for s0, s1 in zip(parts[0].shape[1:], p.shape[1:]):
+                if s0 is not s1:
+                    raise P.Undecided('concatenate with different trailing shapes')
+        offs, tot = [], I(0)
+        for p in parts:
+            offs.append(tot)
+            tot = tot + p.shape[0]
+
+        def at(n, *rest):
+            r = parts[-1].el(n - offs[-1], *rest)
+            for p, o, nxt in reversed(list(zip(parts[:-1], offs[:-1], offs[1:]))):
+                r = tm.ite(I(n) < nxt, p.el(n - o, *rest), r)
+            return r
+        return PArr((tot,) + tuple(parts[0].shape[1:]), at, parts[0].sort, label='concat')
 
     def sum(self, a, *args, **kw):
         if isinstance(a, PArr):
